@@ -117,6 +117,13 @@ inductive Step
   | unknown (what : String)
 deriving DecidableEq, Repr
 
+/-- raymond's `Escape`, which `{{Validator}}` (two braces) goes through in all five template sets: the tag text the
+    generated code hands to go-playground is the HTML-escaped validate string -/
+def htmlEscape (s : String) : String :=
+  String.ofList (s.toList.flatMap fun c =>
+    if c = '&' then "&amp;".toList else if c = '\'' then "&apos;".toList else if c = '<' then "&lt;".toList
+    else if c = '>' then "&gt;".toList else if c = '"' then "&quot;".toList else [c])
+
 def declType (p : Param) : String :=
   let q := if p.type.pkgPath.isEmpty then "" else s!"Param{p.serial}{p.name}."
   if p.passedIn = "Query" || p.passedIn = "Body" then arrayPrefixes p.type.name ++ q ++ stripArrayPrefixes p.type.name
@@ -125,7 +132,7 @@ def declType (p : Param) : String :=
 def paramSteps (p : Param) : List Step :=
   if p.isContext then [] else
   let var := p.name ++ "RawPtr"
-  if p.passedIn = "Body" then [.decl var (declType p), .body var p.validator]
+  if p.passedIn = "Body" then [.decl var (declType p), .body var (htmlEscape p.validator)]
   else
     [.decl var (declType p), .bind p.passedIn p.nameInSchema] ++
     (match convKey p.type with
@@ -133,7 +140,7 @@ def paramSteps (p : Param) : List Step :=
         | some (_, fn, bits) => [.conv fn.name (match bits with | some b => toString b | none => "")]
         | none => []
      | none => []) ++
-    (if p.validator.isEmpty then [] else [.validate var p.validator])
+    (if p.validator.isEmpty then [] else [.validate var (htmlEscape p.validator)])
 
 def callArgs (r : Route) : List (String × Bool) :=
   r.params.map fun p => if p.isContext then ("ctx", false) else (p.name ++ "RawPtr", !p.type.isByAddress)
